@@ -144,7 +144,9 @@ def check_case(case, common, out):
             return
         rng = random.Random(hash(cid) & 0xFFFF)
         results = []
-        for mode in ("sync-instrumented", "random", "lifo", "fifo", "threads"):
+        raised = []
+        MODES = ("sync-instrumented", "random", "lifo", "fifo", "threads")
+        for mode in MODES:
             del _log[:]
             try:
                 if mode == "sync-instrumented":
@@ -154,12 +156,19 @@ def check_case(case, common, out):
                 else:
                     vals = random_order_get(g, keys, rng, mode)
             except Exception as ex:
-                viol(out, f"C05.exec[{mode}]:raises", cid, f"{type(ex).__name__}: {str(ex)[:200]}", replay)
+                raised.append((mode, type(ex).__name__, str(ex)[:200]))
                 continue
             bump(out, "C05.task:arguments-unchanged+order-independent", f"{cid}|{mode}", rule="program x layout x execution mode (instrumented sync, random / lifo / fifo dependency-respecting orders, 8 threads); every task call fingerprints its arguments before and after")
             for fname, what in _log[:3]:
                 viol(out, "C05.task:mutates-its-argument", f"{cid}|task={fname}", what, replay)
             results.append((mode, list(vals) if isinstance(vals, (list, tuple)) else [vals]))
+        if raised and len(raised) == len(MODES) and len({r[1] for r in raised}) == 1:
+            # the plan fails with the same explicit error under EVERY execution order: not a dependence on scheduling
+            # (whether the error is a legitimate refusal is the business of C01 / C02, which compare with the unoptimized plan and pandas)
+            out["notes"][f"fails under every execution order: {case[3]}"] = f"{raised[0][1]}: {raised[0][2][:80]}"
+        else:
+            for mode, ename, msg in raised:
+                viol(out, f"C05.exec[{mode}]:raises", cid, f"{ename}: {msg} (other execution orders: {[m for m, _ in results] or 'none'} succeed, or fail differently)", replay)
         base = results[0] if results else None
         for mode, vals in results[1:]:
             if len(vals) != len(base[1]):
